@@ -1,31 +1,75 @@
 ---------------------------- MODULE Lifecycle ----------------------------
-(* C20.  Macro-level typestate of executor lifecycles with a resource ledger, used as the generator of the histories
-   that are executed with real executors (engine/real/lifecycle_real.py).
-   A lifecycle = create an executor (plain or reusable), use it in one of several ways, end it in one of several ways,
-   release it.  While it lives it owns parent-side resources (pipe ends, management threads, child processes, named
-   semaphores); the property: once it has completed shutdown (or was broken and replaced) and was released, it owns
-   nothing -- so repeating any history leaves the same resource counts as running it once.                        *)
-EXTENDS Naturals, Sequences, TLC, Json
+(* C20.  Typestate of executor lifecycles with a ledger of the parent-side resources the executor owns, used (a) to
+   state "a released executor owns nothing" over every combination of the lifecycle's dimensions and (b) as the
+   generator of the histories that are executed with real executors (engine/real/lifecycle_real.py).
 
-CONSTANTS Kinds, MaxLen
+   A lifecycle is a record
+       pool : "plain" | "reusable"                      ProcessPoolExecutor(...) / get_reusable_executor(...)
+       load : "small" | "bigarg" | "bigres" | "nested"  what its tasks carry: a payload larger than the pipe buffer as
+                                                        argument / as result, or an executor nested inside the worker
+       busy : "idle" | "running" | "queued"             state when the end begins: all tasks done / every worker inside
+                                                        a task / additionally tasks waiting in the call queue
+       end  : how it ends (Ends below)
+   and goes through  Create -> Load -> End -> Join -> Release, each step acquiring or releasing the resources the code
+   acquires or releases there (process_executor.py: __init__/_start_executor_manager_thread, kill_workers /
+   shutdown_workers, join_executor_internals).
 
-\* resources held by a live executor of each kind, in units: <<pipe ends, threads, children, semaphores>> for w workers
-Owned(k) == CASE k \in {"plain_clean", "plain_ctx", "plain_nowait", "plain_kill", "plain_broken", "plain_timeout", "plain_cancel"} -> <<6, 2, 2, 9>>
-              [] k \in {"reuse_same", "reuse_resize", "reuse_broken", "reuse_kill"} -> <<6, 2, 3, 10>>
-              [] OTHER -> <<6, 2, 1, 8>>
+   The one subtle resource is the queue feeder thread: with a payload larger than the pipe buffer waiting to be sent
+   and every worker inside a task, the feeder is blocked in send_bytes.  Workers that finish read the payload; workers
+   that are killed do not, and the feeder then only returns if the parent closes its own read end of the call queue
+   (switch CloseReaderOnKill; CPython gh-94777).  A blocked feeder keeps the call queue, its pipe ends and its
+   semaphores alive.                                                                                               *)
+EXTENDS Naturals, Sequences, FiniteSets, TLC, Json
 
-VARIABLES hist, phase, ledger
-vars == <<hist, phase, ledger>>
-Zero == <<0, 0, 0, 0>>
-Init == hist = <<>> /\ phase = "idle" /\ ledger = Zero
+CONSTANTS MaxLen,               \* lifecycles per history
+          CloseReaderOnKill     \* TRUE: kill_workers() closes the parent's read end of the call queue
 
-Begin(k) == /\ phase = "idle" /\ Len(hist) < MaxLen /\ phase' = "live"
-            /\ hist' = Append(hist, k) /\ ledger' = Owned(k)
-\* shutdown completed (or broken and replaced / killed) and the last reference dropped
-EndIt == /\ phase = "live" /\ phase' = "idle" /\ ledger' = Zero /\ UNCHANGED hist
-Next == (\E k \in Kinds : Begin(k)) \/ EndIt
+Pools == {"plain", "reusable"}
+Loads == {"small", "bigarg", "bigres", "nested"}
+Busys == {"idle", "running", "queued"}
+Ends  == {"wait", "ctx", "nowait", "kill", "crash", "timeout", "cancel", "resize", "replace_kill"}
+Killing == {"kill", "crash", "replace_kill"}          \* ends in which workers die without reading the call queue
+
+Valid(l) == /\ (l.end = "timeout" => l.busy = "idle")
+            /\ (l.end = "cancel" => l.busy = "queued")
+            /\ (l.end = "resize" => l.pool = "reusable" /\ l.busy = "idle")
+            /\ (l.end = "replace_kill" => l.pool = "reusable")
+Lives == {l \in [pool : Pools, load : Loads, busy : Busys, end : Ends] : Valid(l)}
+
+VARIABLES hist, phase, cur, ledger, feederBlocked
+vars == <<hist, phase, cur, ledger, feederBlocked>>
+NoLife == [pool |-> "none", load |-> "none", busy |-> "none", end |-> "none"]
+
+Init == hist = <<>> /\ phase = "idle" /\ cur = NoLife /\ ledger = {} /\ feederBlocked = FALSE
+
+\* ProcessPoolExecutor.__init__: wakeup pipe, call queue and result queue (pipes + their locks / semaphores)
+Create(l) == /\ phase = "idle" /\ Len(hist) < MaxLen /\ l \in Lives
+             /\ phase' = "created" /\ cur' = l
+             /\ ledger' = {"wakeup_pipe", "call_pipe", "result_pipe", "queue_sems"}
+             /\ UNCHANGED <<hist, feederBlocked>>
+\* first submit: manager thread, feeder thread, worker processes (+ the exit-lock semaphore of each); then the load
+Load == /\ phase = "created" /\ phase' = "loaded"
+        /\ ledger' = ledger \cup {"mgr_thread", "feeder_thread", "workers", "worker_sems"}
+                            \cup (IF cur.load = "nested" /\ cur.busy # "idle" THEN {"grandchildren"} ELSE {})
+        /\ feederBlocked' = (cur.load = "bigarg" /\ cur.busy = "queued")
+        /\ UNCHANGED <<hist, cur>>
+\* the end begins: the workers leave (sentinel / idle timeout) or are killed together with their descendants
+End == /\ phase = "loaded" /\ phase' = "ending"
+       /\ ledger' = ledger \ {"workers", "worker_sems", "grandchildren"}
+       /\ feederBlocked' = IF cur.end \in Killing THEN (feederBlocked /\ ~CloseReaderOnKill) ELSE FALSE
+       /\ UNCHANGED <<hist, cur>>
+\* join_executor_internals: sentinel to the feeder, queues and wakeup pipe closed, manager thread returns
+Join == /\ phase = "ending" /\ phase' = "joined"
+        /\ ledger' = IF feederBlocked THEN {"feeder_thread", "call_pipe", "queue_sems"} ELSE {}
+        /\ UNCHANGED <<hist, cur, feederBlocked>>
+\* the last reference is dropped
+Release == /\ phase = "joined" /\ phase' = "idle"
+           /\ hist' = Append(hist, cur) /\ cur' = NoLife
+           /\ UNCHANGED <<ledger, feederBlocked>>
+\* the next lifecycle starts from what is left
+Next == (\E l \in Lives : Create(l)) \/ Load \/ End \/ Join \/ Release
 Spec == Init /\ [][Next]_vars
 
-ReleasedMeansNothingOwned == phase = "idle" => ledger = Zero
+ReleasedMeansNothingOwned == phase = "idle" => ledger = {}
 Emit == (phase = "idle" /\ Len(hist) >= 1) => PrintT(ToJson(<<"HIST", hist>>))
 =============================================================================
